@@ -1,3 +1,47 @@
+(* Proofs about the commit-protocol model Proto.v, part 2: the SUCCESS half and the store COUNT facts,
+   for every transaction t and every initial disk d (no bound on any list).
+
+   Main results
+   - run_success / commit_success_outcome: a well-formed transaction (SW d t) run without an injected fault
+     reports Committed, and the final disk is the explicit term finalD d t.
+   - commit_success_view: in that final disk (a) every updated node resolves to its new physical id, at the
+     read version + 1, and the new blob is present; (b) every removed node is gone from the registry;
+     (c) every new root / added node resolves to its own id and its blob is present; (d) every other logical
+     id has exactly its pre-commit handle; (e) no transaction log and no priority log are left;
+     (f) count_of d' s = count_of d s + delta_of (deltas t) s for every store s.
+   - failed_commit_preserves_counts: for EVERY fault position, a run that does not report Committed leaves
+     count_of unchanged for every store, provided rb_stores t negates deltas t store by store and
+     (tracked t = true or all deltas sum to zero).
+   - SW_nonvacuous, counts_hyp_nonvacuous, run_ex: the hypotheses are satisfiable; concrete final disk.
+
+   What had to be assumed beyond the obvious, and what the model does that one might not expect
+   1. plog d = None (SW_plog) is needed for (e): a transaction without updated and removed nodes neither
+      writes nor removes its priority log, so a stale priority log would survive (plog d' = plog d).
+   2. Freshness (SW_fresh_upd, SW_fresh_new) is needed for the blob-presence parts of (a) and (c): cleanup
+      deletes the old active blob of every updated and removed node and obsolete t AFTER the new blobs were
+      written; a new physical id equal to such an id would be deleted again.  The registry parts of
+      (a)-(d), (e) and (f) do not use freshness.
+   3. tlog d = false (SW_tlog) is not used by any proof: TlogAdd creates the log, the final TlogRemove
+      removes it.  NoDup (map fst (deltas t)) is not needed for (f): count_add adds to the first entry of a
+      store and find reads the first entry, so repeated entries simply add up (delta_of sums them).
+   4. cleanup is best effort: Committed is reported even if its RegRemove failed.  (b) holds because under
+      SW every removed id is present when cleanup runs (Guards.G_present), so the RegRemove is performed;
+      NoDup (map lid (reg d)) is needed there because reg_del deletes only the first handle of an id.
+   5. For failed_commit_preserves_counts no hypothesis about backend errors is needed: every call issued
+      before a rollback starts (phase 1, log finalizeCommit, the phase-2 RegUpd) is one on which
+      apply_call never returns None, so the first failing call is always the injected one, the fault is
+      used up, and the rollback's SrUpdate (rb_stores t) is performed; backend errors (RegRemove of a missing
+      id, TlogRemove without a log) can occur only inside rollback/cleanup, after that SrUpdate.
+      A Conflict arises only while committedState <= commitRemovedNodes, where neither SrUpdate is issued,
+      so a pending fault does no harm there.
+   6. The count theorem is FALSE for tracked t = false with nonzero deltas (untracked_counts_refuted): phase 1
+      is then a no-op, SrUpdate (deltas t) is never issued, but a failing phase 2 runs rollback with
+      committedState = finalizeCommit > commitStoreInfo, which issues SrUpdate (rb_stores t).  Hence the
+      hypothesis "tracked t = true \/ all deltas are zero".  (Whether the real Phase2Commit also returns early
+      for a transaction without tracked items is outside this model.)
+   7. rb_stores t must negate deltas t for EVERY store.  The model comment says rb_stores lists only stores
+      not created by this transaction; a store created here with a nonzero delta violates the hypothesis, and
+      indeed its count is then not rolled back by SrUpdate (in the real system the store itself is removed). *)
 From Coq Require Import List ZArith NArith Bool Lia.
 From Coq Require Import ZifyBool ZifyNat ZifyN.
 From SopVerif Require Import Proto ProtoProofs.
@@ -1337,3 +1381,77 @@ Proof.
     unfold phase1 in E. rewrite Ht in E. cbn [when] in E.
     rewrite (phase2_fail _ _ _ _ E Hne). cbn [init dk]. rewrite cnt_upd, Hneg, Hz. lia.
 Qed.
+
+(* the hypothesis on tracked t cannot be dropped: an untracked transaction with deltas [(1,1)] / rb_stores
+   [(1,-1)] whose first call (log finalizeCommit) is failed by injection ends with store 1 at 7 - 1 = 6 *)
+Example untracked_counts_refuted :
+  exists t d f o d' tr',
+    (forall s, delta_of (rb_stores t) s = (- delta_of (deltas t) s)%Z)
+    /\ run t d f = (o, d', tr') /\ o <> Committed /\ count_of d 1 = 7%Z /\ count_of d' 1 = 6%Z.
+Proof.
+  exists (mkT false [] [] [] [] [] [] [] [] [(1, 1%Z)] [(1, (-1)%Z)]).
+  exists (mkD [] [] [(1, 7%Z)] false None). exists (Some O).
+  eexists. eexists. eexists. split; [|split; [vm_compute; reflexivity|split; [discriminate|split; reflexivity]]].
+  intros s. cbn [rb_stores deltas delta_of]. destruct (N.eqb 1 s); lia.
+Qed.
+
+(* SW_plog cannot be dropped for (e): a transaction with no updated and no removed node commits and leaves a
+   stale priority log where it was *)
+Example stale_plog_survives :
+  exists t d d' tr', tracked t = true /\ run t d None = (Committed, d', tr') /\ plog d = Some [] /\ plog d' = Some [].
+Proof.
+  exists (mkT true [] [] [] [] [] [] [] [5] [] []). exists (mkD [] [] [] false (Some [])).
+  eexists. eexists. split; [reflexivity|]. split; [vm_compute; reflexivity|]. split; reflexivity.
+Qed.
+
+(* ------------------------------------------------------------------ non-vacuity *)
+
+(* three registered nodes 10, 11, 12 of store 1 (7 items), an old value blob 50;
+   the transaction updates node 10 (new physical id 30), removes node 11, adds node 40, creates the root 20
+   of a second (empty) store, has read node 12, writes the value blob 60 and makes blob 50 obsolete;
+   store 1 and store 2 each gain one item *)
+Definition d_ex : disk :=
+  mkD [mkH 10 10 0 false 3%Z 0 false; mkH 11 11 0 false 2%Z 0 false; mkH 12 12 0 false 5%Z 0 false]
+      [10; 11; 12; 50] [(1, 7%Z)] false None.
+Definition t_ex : txn :=
+  mkT true [60] [60] [50] [20] [(12, 5%Z)] [(10, 3%Z, 30)] [(11, 2%Z)] [40]
+      [(1, 1%Z); (2, 1%Z)] [(1, (-1)%Z); (2, (-1)%Z)].
+
+Example SW_nonvacuous : SW d_ex t_ex.
+Proof.
+  constructor.
+  - reflexivity.
+  - cbn. repeat (constructor; [cbn; intros H; intuition discriminate|]). constructor.
+  - intros l [E|[]]. subst l. reflexivity.
+  - intros l [E|[]]. subst l. reflexivity.
+  - intros l v p [E|[]]. inversion E; subst l v p. eexists. eexists. split; reflexivity.
+  - intros l v [E|[]]. inversion E; subst l v. eexists. split; [reflexivity|]. split; reflexivity.
+  - reflexivity.
+  - intros x [E|[]]. subst x. eexists. reflexivity.
+  - reflexivity.
+  - reflexivity.
+  - cbn. repeat (constructor; [cbn; intros H; intuition discriminate|]). constructor.
+  - intros l v p [E|[]]. inversion E; subst l v p. split; cbn; intros H; intuition discriminate.
+  - intros l [E|[E|[]]]; subst l; split; cbn; intros H; intuition discriminate.
+Qed.
+
+Example counts_hyp_nonvacuous :
+  tracked t_ex = true /\ forall s, delta_of (rb_stores t_ex) s = (- delta_of (deltas t_ex) s)%Z.
+Proof.
+  split; [reflexivity|]. intros s. cbn [t_ex rb_stores deltas delta_of].
+  destruct (N.eqb 1 s); destruct (N.eqb 2 s); lia.
+Qed.
+
+(* node 10 now resolves to blob 30 at version 4, node 11 is gone, 20 and 40 are registered, node 12 is untouched;
+   blobs 10 (old content of node 10), 11 and 50 were deleted; the counts are 7 + 1 and 0 + 1 *)
+Example run_ex :
+  fst (run t_ex d_ex None)
+  = (Committed,
+     mkD [mkH 10 10 30 true 4%Z 1 false; mkH 12 12 0 false 5%Z 0 false;
+          mkH 20 20 0 false 0%Z 0 false; mkH 40 40 0 false 1%Z 0 false]
+         [12; 60; 20; 30; 40] [(1, 8%Z); (2, 1%Z)] false None)
+  /\ length (snd (run t_ex d_ex None)) = 32%nat
+  /\ forallb snd (snd (run t_ex d_ex None)) = true.
+Proof. vm_compute. repeat split. Qed.
+
+(* Print Assumptions commit_success_outcome commit_success_view failed_commit_preserves_counts: closed under the global context *)
